@@ -100,15 +100,35 @@ def replay_scope(run, hvsrpy, by_range, freq, scale, ascale, rng, stride, cfg):
 
     # ---- single curves, diffuse field, single-window mean curve ----------
     sel = list(range(0, nw, stride))
+    # a second grid with the SAME length and the SAME first and last frequency but geometric spacing: the same range in Hz is
+    # evaluated on it right after the linear grid (nothing may be carried over from one grid to another); its lattice position
+    # is found by snapping the Hz values on that grid (skipped at an exact tie)
+    n_ = len(freq)
+    freq_b = np.geomspace(freq[0], freq[-1], n_) if scale == 1.0 else None
+
+    def lattice_on_b(v):
+        if v is None:
+            return NOEND
+        d = np.abs(freq_b - v)
+        i = int(np.argmin(d))
+        return None if np.sum(d == d[i]) > 1 else 2 * (i + 1)
     for (lo, hi) in ranges:
         r = (hz(lo, scale), hz(hi, scale))
         cs = by_range[(lo, hi)]
+        kb = None
+        if freq_b is not None and (lo == NOEND or 2 <= lo <= 2 * n_) and (hi == NOEND or 2 <= hi <= 2 * n_):
+            lb, hb = lattice_on_b(r[0]), lattice_on_b(r[1])
+            kb = by_range.get((lb, hb)) if lb is not None and hb is not None else None
         for j in sel:
             k = cs[j]
             c = HvsrCurve(freq, amp[j])
             c.update_peaks_bounded(search_range_in_hz=r)
             gi = idx_of(freq, c.peak_frequency)
             judge(run, "HvsrCurve", k, gi, c.peak_amplitude, amp[j], scale, ascale)
+            if kb is not None and j % 3 == 0:
+                cb = HvsrCurve(freq_b, amp[j])
+                cb.update_peaks_bounded(search_range_in_hz=r)
+                judge(run, "HvsrCurve[geometric grid, same ends]", kb[j], idx_of(freq_b, cb.peak_frequency), cb.peak_amplitude, amp[j], scale, ascale)
             nt = None
             if k["al"] != [0] and k["ip"] != unb[tuple(k["c"])]:
                 nt = (tuple(k["c"]), lo, hi)
